@@ -196,6 +196,7 @@ func serverCfg() *security.SecurityConfig {
 	c.SessionCache = nil
 	env.Apply(nil, c)
 	c.TokenMaxAge = cfgAge
+	c.Credentials = credReader
 	return c
 }
 
@@ -771,8 +772,11 @@ func refVerify(tok string) (accept bool, fuzzy bool) {
 	return true, fuzzy
 }
 
+// credReader, when set, is the CredentialReader every verifier/server configuration of this package carries
+var credReader security.CredentialReader
+
 func verifyCfg() *security.SecurityConfig {
-	c := &security.SecurityConfig{TokenMaxAge: cfgAge}
+	c := &security.SecurityConfig{TokenMaxAge: cfgAge, Credentials: credReader}
 	env.Apply(nil, c)
 	return c
 }
